@@ -195,7 +195,8 @@ def operator_batching(operator: OperatorSignature) -> tf.Tensor:
                 for x, y in dataset.batch(batch_size)
             ], axis=0)
         else:
-            results = operator(model, inputs, targets)
+            # same types as in the batched branch, where the dataset yields tensors
+            results = operator(model, tf.convert_to_tensor(inputs), tf.convert_to_tensor(targets))
 
         return results
 
